@@ -166,7 +166,7 @@ op('m_to_scalar', [(('M2',), 'S'), (('M3',), 'S')], lambda o, p: o[0].to_scalar(
    lambda a, p, ts: ['comp', int(p['i']) * MN[ts[0]] + int(p['j']), a[0]])
 op('row_vector', [(('M2',), 'V2'), (('M3',), 'V3')], lambda o, p: o[0].row_vector(int(p['i'])),
    lambda a, p, ts: ['slice', int(p['i']) * MN[ts[0]], (int(p['i']) + 1) * MN[ts[0]], a[0]])
-op('mdiv', MM, lambda o, p: o[0] / o[1], lambda a, p, ts: ['matmul', MN[ts[0]], MN[ts[0]], MN[ts[0]], a[0], ['inverse', MN[ts[0]], a[1]]],
+op('mdiv', MM, lambda o, p: o[0] / o[1], lambda a, p, ts: ['mdiv', MN[ts[0]], a[0], a[1]],
    lambda o, p: need(np.abs(np.linalg.det(vals(o[1]))) > 0.3))
 
 # rotations
@@ -258,7 +258,8 @@ def _make_leaf(node, keys, mode, disp=None):
     """mode 'full': with derivatives; 'plain': values only, displaced by disp = (key, j, h) along the
     leaf's own derivative"""
     shape, item = leaf_shapes(node)
-    v = np.array(node['vals'], dtype=float).reshape(shape + item)
+    oden = tuple(node.get('den', []))        # the operand's OWN denominator (keys then have denominator ())
+    v = np.array(node['vals'], dtype=float).reshape(shape + item + oden)
     mask = False
     if node.get('mask') is not None:
         mask = np.array(node['mask'], dtype=bool).reshape(shape)
@@ -267,15 +268,15 @@ def _make_leaf(node, keys, mode, disp=None):
         if disp is not None and disp[0] in node['derivs']:
             key, j, h = disp
             den = tuple(keys[key])
-            d = np.array(node['derivs'][key], dtype=float).reshape(shape + item + den)
-            d = d.reshape(shape + item + (-1,))[..., j] if den else d
+            d = np.array(node['derivs'][key], dtype=float).reshape(shape + item + oden + den)
+            d = d.reshape(shape + item + oden + (-1,))[..., j] if den else d
             v = v + h * d
-        return cls(v, mask)
-    obj = cls(v, mask)
+        return cls(v, mask, drank=len(oden))
+    obj = cls(v, mask, drank=len(oden))
     for key, dv in node['derivs'].items():
         den = tuple(keys[key])
-        d = np.array(dv, dtype=float).reshape(shape + item + den)
-        obj.insert_deriv(key, cls(d, drank=len(den)))
+        d = np.array(dv, dtype=float).reshape(shape + item + oden + den)
+        obj.insert_deriv(key, cls(d, drank=len(oden) + len(den)))
     return obj
 
 
@@ -370,9 +371,20 @@ def obj_array(shape, items):
     return a.reshape(shape)
 
 
+class SA:
+    """symbolic array: object ndarray of item programs with shape = array shape + denominator shape"""
+    def __init__(self, arr, dr=0):
+        self.arr, self.dr = arr, dr
+
+    @property
+    def rank(self):
+        return self.arr.ndim - self.dr
+
+
 def sym(node, E):
-    """np object array (array shape of the node) of item-level programs, or None if some operation of
-    the tree has no model; shared nodes ('nid') are expanded (the model is a pure function of the tree)"""
+    """SA (array shape + denominator shape) of item-level programs, or None if some operation of the tree
+    has no model; shared nodes ('nid') are expanded (the model is a pure function of the tree).  A
+    denominator axis of an OPERAND is handled like an array axis: each denominator index is its own item."""
     nid = node.get('nid')
     if nid is not None and nid in E.memo:
         return E.memo[nid]
@@ -382,26 +394,44 @@ def sym(node, E):
     return r
 
 
+def align(args):
+    """broadcast operands: array axes lead, denominator axes trail (at most one distinct denominator)"""
+    dr = max(a.dr for a in args)
+    arrs = []
+    rank = max(a.rank for a in args)
+    for a in args:
+        x = a.arr
+        den = x.shape[x.ndim - a.dr:] if a.dr else ()
+        lead = x.shape[:x.ndim - a.dr]
+        x = x.reshape((1,) * (rank - len(lead)) + lead + (den if a.dr else (1,) * dr))
+        arrs.append(x)
+    return np.broadcast_arrays(*arrs), dr
+
+
 def _sym(node, E):
     o = node['op']
     if o == 'leaf':
         shape, item = leaf_shapes(node)
+        oden = tuple(node.get('den', []))
         isz = int(np.prod(item, dtype=int))
         n = int(np.prod(shape, dtype=int))
-        v = np.array(node['vals'], dtype=float).reshape(n, isz)
+        nD = int(np.prod(oden, dtype=int))
+        v = np.array(node['vals'], dtype=float).reshape(n, isz, nD)
         m = np.zeros(n, dtype=bool) if node.get('mask') is None else np.array(node['mask'], dtype=bool).reshape(n)
         base = len(E.env)
         for e in range(n):
-            for c in range(isz):
-                E.env.append(bits(v[e, c])); E.um.append(not bool(m[e]))
+            for jd in range(nD):
+                for c in range(isz):
+                    E.env.append(bits(v[e, c, jd])); E.um.append(not bool(m[e]))
         for (k, j) in E.dirs:
             if k in node['derivs']:
                 nd = int(np.prod(E.keys[k], dtype=int))
-                d = np.array(node['derivs'][k], dtype=float).reshape(n, isz, nd)
-                E.denv[(k, j)] += [bits(d[e, c, j]) for e in range(n) for c in range(isz)]
+                d = np.array(node['derivs'][k], dtype=float).reshape(n, isz, nD, nd)
+                E.denv[(k, j)] += [bits(d[e, c, jd, j]) for e in range(n) for jd in range(nD) for c in range(isz)]
             else:
-                E.denv[(k, j)] += ['n'] * (n * isz)
-        return obj_array(shape, [['opd'] + [base + e * isz + c for c in range(isz)] for e in range(n)])
+                E.denv[(k, j)] += ['n'] * (n * isz * nD)
+        items = [['opd', node['t']] + [base + (e * nD + jd) * isz + c for c in range(isz)] for e in range(n) for jd in range(nD)]
+        return SA(obj_array(shape + oden, items), len(oden))
     args = [sym(a, E) for a in node['args']]
     if any(a is None for a in args):
         return None
@@ -412,10 +442,10 @@ def _sym(node, E):
     if f is None:
         return None
     ts = [a['t'] for a in node['args']]
-    bc = np.broadcast_arrays(*args) if len(args) > 1 else args
+    bc, dr = align(args)
     shape = bc[0].shape
     flat = [b.reshape(-1) for b in bc]
-    return obj_array(shape, [f([fl[i] for fl in flat], p, ts) for i in range(int(np.prod(shape, dtype=int)))])
+    return SA(obj_array(shape, [f([fl[i] for fl in flat], p, ts) for i in range(int(np.prod(shape, dtype=int)))]), dr)
 
 
 def chain_add(items):
@@ -426,10 +456,12 @@ def chain_add(items):
 
 
 def struct_sym(o, args, p):
-    x = args[0]
+    X = args[0]
+    x, dr, rank = X.arr, X.dr, X.rank
+    den = x.shape[rank:]
     if o in ('sum', 'mean'):
         ax = p['axis']
-        axes = tuple(range(x.ndim)) if ax is None else ((ax % x.ndim,) if isinstance(ax, int) else tuple(a % x.ndim for a in ax))
+        axes = tuple(range(rank)) if ax is None else ((ax % rank,) if isinstance(ax, int) else tuple(a % rank for a in ax))
         keep = [k for k in range(x.ndim) if k not in axes]
         moved = np.transpose(x, keep + list(axes))
         out_shape = tuple(x.shape[k] for k in keep)
@@ -441,20 +473,20 @@ def struct_sym(o, args, p):
             if o == 'mean':
                 s = ['ndiv', s, bits(float(lane))]
             items.append(s)
-        return obj_array(out_shape, items)
+        return SA(obj_array(out_shape, items), dr)
     if o == 'getitem':
         r = x[index_of(p['index'])]
         if not isinstance(r, np.ndarray):
             r = obj_array((), [r])
-        return r
+        return SA(r, dr)
     if o == 'reshape':
-        return x.reshape(tuple(p['shape']))
+        return SA(x.reshape(tuple(p['shape']) + den), dr)
     if o == 'flatten':
-        return x.reshape(-1)
+        return SA(x.reshape((-1,) + den), dr)
     if o == 'swap_axes':
-        return np.swapaxes(x, p['a1'], p['a2'])
+        return SA(np.swapaxes(x, p['a1'] % rank, p['a2'] % rank), dr)
     if o == 'stack':
-        bc = np.broadcast_arrays(*args)
+        bc, dr = align(args)
         wide = []
         for i, b in enumerate(bc):
             w = b.reshape(-1).copy()
@@ -464,7 +496,7 @@ def struct_sym(o, args, p):
                     for e in range(len(w)):
                         w[e] = ['widen', w[e], of[e]]
             wide.append(w.reshape(b.shape))
-        return np.stack(wide, axis=0)
+        return SA(np.stack(wide, axis=0), dr)
     if o == 'bcast':
-        return np.broadcast_to(x, tuple(p['shape']))
+        return SA(np.broadcast_to(x, tuple(p['shape']) + den), dr)
     raise KeyError(o)
